@@ -277,6 +277,9 @@ mod regexp;
 mod substring;
 mod unicode_tables;
 
+#[cfg(grex_verif)]
+pub mod verif;
+
 #[cfg(feature = "python")]
 mod python;
 
